@@ -275,7 +275,7 @@ def _call_builtin(I, st, f, name, args, kw, frame, node, where):
         elif isinstance(v, Obj) and v.oid in st.seqs:
             elems = st.seqs[v.oid]
         elif isinstance(v, Obj) and v.oid in st.maps:
-            elems = [Star(it[1]) if it[0] == 'star' else it for it in st.maps[v.oid]]
+            elems = [Star(it[1]) if it[0] in ('star', 'opt') else it for it in st.maps[v.oid]]
         elif isinstance(v, Str):
             return [(st, Num.const(len(v.s)))]
         elif v is NONE:
@@ -457,6 +457,38 @@ def _call_builtin(I, st, f, name, args, kw, frame, node, where):
                 elems = seq_elements(I, st, a)
             except Unsupported:
                 elems = None
+            if elems is not None and any(type(x).__name__ == 'Opt' for x in elems) and not any(isinstance(x, Star) for x in elems):
+                # optional pairs with literal keys (the words of a command): optional entries; a repeated key is decided
+                # on the spot (present: it replaces the earlier entry in place, absent: nothing happens)
+                from .loops import PSTATUS
+                cur, ok = [(st, [])], True
+                for x in elems:
+                    isopt = type(x).__name__ == 'Opt'
+                    pair = x.value if isopt else x
+                    if not (isinstance(pair, TupleV) and len(pair.elems) == 2 and isinstance(pair.elems[0], Str)):
+                        ok = False
+                        break
+                    k = pair.elems[0]
+                    nxt = []
+                    for (s1, items) in cur:
+                        idx = [n for n, it in enumerate(items) if it[1].s == k.s]
+                        if not idx:
+                            nxt.append((s1, items + [('opt', k, pair.elems[1], x.key_, x.allowed) if isopt else ('kv', k, pair.elems[1])]))
+                            continue
+                        branches = I.decide(s1, x.key_, PSTATUS, x.allowed) if isopt else [(s1, True)]
+                        for (s2, there) in branches:
+                            it2 = list(items)
+                            if there:
+                                it2[idx[0]] = ('kv', k, pair.elems[1])
+                            nxt.append((s2, it2))
+                    cur = nxt
+                if ok:
+                    out = []
+                    for n, (s1, items) in enumerate(cur):
+                        s1.maps[oid] = tuple(items)
+                        s1.flags.add(('fresh', oid))
+                        out.append((s1, Obj(oid)))
+                    return out
             if elems is None or any(isinstance(x, Star) or type(x).__name__ == 'Opt' for x in elems):
                 st.maps[oid] = (('star', '%s(%s)' % (name.split('.')[-1], _k(a))),)
                 return [(st, Obj(oid))]
